@@ -17,7 +17,9 @@ THEORIES = ['theories/L5Cover/BoxesProofs.vo',
             'theories/L5Cover/MinCoverBounded4.vo',
             'theories/L5Cover/BoundsProofs.vo',
             'theories/L5Cover/FloorLitProofs.vo',
-            'theories/L5Cover/MinCoverRefuted.vo']
+            'theories/L5Cover/MinCoverRefuted.vo',
+            'theories/L5Cover/CyclicCoreOpt.vo',
+            'theories/L5Cover/MinCoverFull.vo']
 
 HEADER = cq.HEADER + 'From Omega Require Import L5Cover.MinCover.\n'
 
